@@ -15,7 +15,7 @@ CHECKS = {
    note="step counter hook counts lexer tokens and opened nodes; 256 MiB worker stacks (the server's 2 MiB stacks are not asserted); nesting > 256 skipped as documented non-goal",
    technique="property-based testing / fuzzing with a deterministic step-budget hook"),
  "C10": dict(cat="exploration", design="§5 C10",
-   text="Differential against an independent reference position mapper (RefPos, from the LSP spec) on every string of length <=6 (thorough <=8) over a 9-symbol alphabet chosen to hit every encoding class and every line-break confusion (exhaustive), x every char-boundary offset and every (line, column) up to one past the extremes, plus an exhaustive family of code points at the edges of every UTF-8/UTF-16 length class and one per UTF-8 lead byte, long random texts over arbitrary scalar values, and real files in LF/CRLF form.",
+   text="Differential against an independent reference position mapper (RefPos, from the LSP spec) on every string of length <=6 (thorough <=8) over a 9-symbol alphabet chosen to hit every encoding class and every line-break confusion (exhaustive), x every char-boundary offset and every (line, column) up to one past the extremes, plus an exhaustive family of code points at the edges of every UTF-8/UTF-16 length class and one per UTF-8 lead byte, long random texts over arbitrary scalar values, and real files in LF/CRLF form. Family long-lines: one line of 65 530..270 000 bytes with wide characters around 2^16 and far behind it, positions by definition at sampled offsets.",
    note="RefPos is the trusted reference; offsets strictly inside a CRLF pair are exempt from the round-trip clause, columns inside a surrogate pair and lines past the end are unspecified and skipped",
    technique="exhaustive small-scope enumeration + random texts against a reference model (differential)"),
  "C14": dict(cat="exploration", design="§5 C14",
@@ -23,11 +23,11 @@ CHECKS = {
    note="RefLexer is the trusted reference for boundaries; kinds are checked by class membership, not by name",
    technique="property-based testing: generated token sequences, differential against a reference lexer"),
  "C15": dict(cat="exploration", design="§5 C15",
-   text="Exhaustive enumeration of all directive/marker sequences up to length 6 (thorough 8) over two macro names, evaluated by a reference preprocessor (RefPP): for well-nested inputs the delivered non-trivia tokens must be exactly the selected markers with zero errors; unterminated conditionals and nameless directives must be reported. Random nestings to depth 6 with CRLF and trailing comments (after a blank and glued to the directive word or macro name); the same with lines of text that is not TableGen (unterminated strings, code fragments and comments, mid-line directives) placed in disabled regions; conditional regions embedded between the statements of generated programs (ide level: no declaration and no diagnostic from disabled text).",
+   text="Exhaustive enumeration of all directive/marker sequences up to length 6 (thorough 8) over two macro names, evaluated by a reference preprocessor (RefPP): for well-nested inputs the delivered non-trivia tokens must be exactly the selected markers with zero errors; unterminated conditionals and nameless directives must be reported. Random nestings to depth 6 with CRLF and trailing comments (after a blank and glued to the directive word or macro name); the same with lines of text that is not TableGen (unterminated strings, code fragments and comments, mid-line directives) placed in disabled regions; conditional regions embedded between the statements of generated programs (ide level: no declaration and no diagnostic from disabled text). Directive lines are written with tabs right behind the directive word and blanks or tabs at their end as well.",
    note="RefPP is the trusted reference; inputs with stray #else/#endif are not asserted",
    technique="exhaustive small-scope enumeration against a reference evaluator"),
  "C03": dict(cat="exploration", design="§5 C03",
-   text="Totality oracle (catch_unwind, supervisor process for aborts/stack overflows, deterministic budgets for parser, include traversal and class-hierarchy walks) over ~20k generated multi-file workspaces per quick run - semantic stress patterns (incl. extreme integers wherever positions and widths are computed), shapes whose cost must stay polynomial (class lattices to depth 64, long chains, wide parent lists, multiclasses whose records double with every inner defm - self-instantiating, chained, ambiguous prefixes; an include graph of 40 stacked diamonds), name-colliding 'soup' programs, their typing prefixes and single-token edits, grammar programs, seed and real LLVM files - each swept with the full query set at every offset (small files) or every token boundary.",
+   text="Totality oracle (catch_unwind, supervisor process for aborts/stack overflows, deterministic budgets for parser, include traversal and class-hierarchy walks) over ~20k generated multi-file workspaces per quick run - semantic stress patterns (incl. extreme integers wherever positions and widths are computed), shapes whose cost must stay polynomial (class lattices to depth 64, long chains, wide parent lists, multiclasses whose records double with every inner defm - self-instantiating, chained, ambiguous prefixes; an include graph of 40 stacked diamonds), name-colliding 'soup' programs, their typing prefixes and single-token edits, grammar programs, seed and real LLVM files - each swept with the full query set at every offset (small files) or every token boundary. Strings in the places where the analysis needs their text (def and defm names, pasted parts, named arguments, include paths) come from a pool with escapes at either end, empty, non-ASCII and path-like texts.",
    note="acyclic include graphs only (cycles: C16); 256 MiB stacks; in-memory FileSystem implementation of the harness",
    technique="property-based testing / fuzzing of the analysis API with crash isolation"),
  "C06": dict(cat="exploration", design="§5 C06",
@@ -39,15 +39,15 @@ CHECKS = {
    note="workspace = key set of diagnostics(); text of a file = what the harness' FileSystem served",
    technique="property-based testing: validity predicate over all query results"),
  "C07": dict(cat="exploration", design="§5 C07",
-   text="Differential oracle after every step of generated edit histories (1..12 operations over a 4-file workspace, 24 text variants per file covering every include subset, renames, moved includes, syntax/type errors, missing includes; server-style and API-style edits, root switches): the long-lived host's full query dump must equal a fresh host's. All ordered pairs of a first operation with a second are enumerated, longer histories are random; also histories over generated (SEM) programs with seven kinds of text variants, disk-only changes of included files, and didOpen/didChange/didClose histories through the real server (in a plain workspace directory, in one whose name the editor percent-escapes and in one behind a symbolic link; exhaustive families closed-documents: an unsaved edit, a close, and the document reached again through an include; unmodified-documents: a document opened with the very text of its file, which another program then rewrites) - with unopened files rewritten on disk, also to same-length texts under an unchanged modification time, and with a file that some variants include in vain appearing, disappearing, being opened unsaved and closed - compared with a fresh analysis of disk overlaid by the open buffers.",
+   text="Differential oracle after every step of generated edit histories (1..12 operations over a 4-file workspace, 24 text variants per file covering every include subset, renames, moved includes, syntax/type errors, missing includes; server-style and API-style edits, root switches): the long-lived host's full query dump must equal a fresh host's. All ordered pairs of a first operation with a second are enumerated, longer histories are random; also histories over generated (SEM) programs with seven kinds of text variants, disk-only changes of included files, and didOpen/didChange/didClose histories through the real server (in a plain workspace directory, in one whose name the editor percent-escapes and in one behind a symbolic link; exhaustive families closed-documents: an unsaved edit, a close, and the document reached again through an include; unmodified-documents: a document opened with the very text of its file, which another program then rewrites) - with unopened files rewritten on disk, also to same-length texts under an unchanged modification time, and with a file that some variants include in vain appearing, disappearing, being opened unsaved and closed - compared with a fresh analysis of disk overlaid by the open buffers. Family reopened-documents: 2..4 edits, a close, a re-open and further edits with restarted version numbers, in the three kinds of workspace directory.",
    note="every edit is followed by set_root_file; hash-ordered result lists are compared sorted; FileIds are normalised to paths",
    technique="stateful property-based testing: history generation with a from-scratch differential oracle"),
  "C16": dict(cat="exploration", design="§5 C16",
-   text="Exhaustive enumeration of every include graph (all edge sets incl. self-loops) over <=3 files (thorough: <=4 files, 65536 graphs, and 800k random graphs of 5-8 files, sparse to dense), ladders of 1..89 stacked diamonds (up to 268 files reached along 2^89 paths) within a traversal budget linear in files + include statements, x 10 variants (missing includes in every file, an include statement with an empty file name, INCLUDE_DIR-only target, directory-vs-INCLUDE_DIR choice, doubled include statements, includes nested in let/foreach/multiclass blocks and spread over both branches of an if, two directories with same-named files, files that declare nothing by name, include statements with a comment before the file name), checked against a reference reachability/resolution model: termination via traversal budget, exact workspace, exact document links, diagnostics only on unresolvable includes, single indexing, references across all includers.",
+   text="Exhaustive enumeration of every include graph (all edge sets incl. self-loops) over <=3 files (thorough: <=4 files, 65536 graphs, and 800k random graphs of 5-8 files, sparse to dense), ladders of 1..89 stacked diamonds (up to 268 files reached along 2^89 paths) within a traversal budget linear in files + include statements, x 10 variants (missing includes in every file, an include statement with an empty file name, INCLUDE_DIR-only target, directory-vs-INCLUDE_DIR choice, doubled include statements, includes nested in let/foreach/multiclass blocks and spread over both branches of an if, two directories with same-named files, files that declare nothing by name, include statements with a comment before the file name), checked against a reference reachability/resolution model: termination via traversal budget, exact workspace, exact document links, diagnostics only on unresolvable includes, single indexing, references across all includers. Variant 10: every other file is empty (zero bytes). The nested variant also puts the root's includes into a defset.",
    note="traversal-budget hook in collect_sources / Include::index; search order taken from the documentation",
    technique="exhaustive small-scope enumeration of configurations against a reference model"),
  "C20": dict(cat="exploration", design="§5 C20",
-   text="Exhaustive over the finite completion vocabularies in the four contexts x the lexer's tables (acceptance decided by running the server's lexer/parser, candidates harvested from lexer.rs and the reference operator list; every accepted operator must be offered after '!' in four contexts, one with the '!' directly in front of an operator name); the same contexts behind generated trivia (non-ASCII comments, CRLF, block comments) must offer exactly what the bare context offers; class completion on generated multi-file workspaces (template parameters of seven types with type-correct defaults of several shapes, redeclarations) at every parent-class position with 0..3 typed characters, and at a parent-class position appended to generated (SEM) programs.",
+   text="Exhaustive over the finite completion vocabularies in the four contexts x the lexer's tables (acceptance decided by running the server's lexer/parser, candidates harvested from lexer.rs and the reference operator list; every accepted operator must be offered after '!' in four contexts, one with the '!' directly in front of an operator name); the same contexts behind generated trivia (non-ASCII comments, CRLF, block comments) must offer exactly what the bare context offers; class completion on generated multi-file workspaces (template parameters of seven types with type-correct defaults of several shapes, redeclarations) at every parent-class position with 0..3 typed characters, and at a parent-class position appended to generated (SEM) programs. String defaults carry escape sequences, also right in front of the closing quote.",
    note="eight vocabulary mismatches are pinned by a snapshot test and listed as known findings (exact spelling signatures)",
    technique="exhaustive enumeration of vocabularies + property-based testing of class completion"),
  "C05": dict(cat="exploration", design="§5 C05",
@@ -59,15 +59,15 @@ CHECKS = {
    note="well-formedness audited against llvm-tblgen-14 on its feature subset; token deletions restricted to ';', '=' (not before '{') and ':' whose absence is locally detectable; type faults use literals for which no TableGen conversion exists",
    technique="property-based testing + single-fault seeding over generated programs"),
  "C18": dict(cat="exploration", design="§5 C18",
-   text="Outline and folding expectations known by construction from the SEM generator (statement extents, declaring identifiers, template arguments, declared/overridden fields, defset membership incl. nested defsets and blocks inside defsets, forward-declared classes as declarations of their own) compared exactly with document_symbol and folding_range for every file of 25000 programs per quick run; exhaustive family unresolved-parent (parent lists of <=3 entries over two classes and an undeclared name, x def/class x override present/absent: the outline keeps every resolvable parent's fields).",
+   text="Outline and folding expectations known by construction from the SEM generator (statement extents, declaring identifiers, template arguments, declared/overridden fields, defset membership incl. nested defsets and blocks inside defsets, forward-declared classes as declarations of their own) compared exactly with document_symbol and folding_range for every file of 25000 programs per quick run; exhaustive family unresolved-parent (parent lists of <=3 entries over two classes and an undeclared name, x def/class x override present/absent: the outline keeps every resolvable parent's fields). Every third program ends with a switched-off preprocessor region full of declarations and blocks (a two-branch conditional nested in it), which must add nothing.",
    note="outline entries of defs inside multiclass bodies and of defs named by a paste expression are not asserted",
    technique="property-based testing with a by-construction oracle"),
  "C19": dict(cat="exploration", design="§5 C19",
-   text="Hover (signature content, doc-comment extraction, use = declaration; on field overrides and uses of overridden fields the documentation of the declaration go-to-definition points at) at every identifier occurrence and inlay hints (exact set over the whole file; subset and in-range for every statement range, every class-name-only range and random ranges) against expectations recorded by the SEM generator; 25000 programs per quick run (a quarter in CRLF form).",
+   text="Hover (signature content, doc-comment extraction, use = declaration; on field overrides and uses of overridden fields the documentation of the declaration go-to-definition points at) at every identifier occurrence and inlay hints (exact set over the whole file; subset and in-range for every statement range, every class-name-only range and random ranges) against expectations recorded by the SEM generator; 25000 programs per quick run (a quarter in CRLF form). Declared widths include bits<1>, bits<2> and bits<16>.",
    note="label/signature formatting matched by containment; hints of multiclass references not asserted; fields overridden by let are exempt from the use=declaration clause",
    technique="property-based testing with a by-construction oracle"),
  "C08": dict(cat="exploration", design="§5 C08",
-   text="The real Server runs in-process; a controlled scheduler built on schedule-point hooks (handlers, set_file_content, snapshot tasks, vfs reads) enumerates, per scenario (5 handlers - change root, change included, open included, re-send identical text, close root - x {no request, each of the 8 request kinds; thorough: every pair of request kinds}, with the previous notification's diagnostics task alive), every interleaving with at most 1 preemption (thorough: 3) by stateless DFS; blocked threads are recognised from /proc (sleeping, unchanged context-switch counters), a deadlock is reported when no actor can be released while some are blocked. Plus uncontrolled bursts (all 'change, request' pairs, request floods of 2..32 requests in flight when an edit arrives, workspace-switch sequences over documents that carry diagnostics, a third document and a root that drops its include, wide-workspace sequences - 40/300 includes, 200/3000 uses, the next edit sent the moment publishing starts - and random operation lists on documents of 1..300 classes) where a missing answer counts only with all-threads-blocked evidence. The client announces the capabilities a current editor announces (dynamic registration, workspace/*/refresh, work-done progress) and answers every server-to-client request at once, behind what it has already written.",
+   text="The real Server runs in-process; a controlled scheduler built on schedule-point hooks (handlers, set_file_content, snapshot tasks, vfs reads) enumerates, per scenario (5 handlers - change root, change included, open included, re-send identical text, close root - x {no request, each of the 8 request kinds; thorough: every pair of request kinds}, with the previous notification's diagnostics task alive), every interleaving with at most 1 preemption (thorough: 3) by stateless DFS; blocked threads are recognised from /proc (sleeping, unchanged context-switch counters), a deadlock is reported when no actor can be released while some are blocked. Plus uncontrolled bursts (all 'change, request' pairs, request floods of 2..32 requests in flight when an edit arrives, workspace-switch sequences over documents that carry diagnostics, a third document and a root that drops its include, wide-workspace sequences - 40/300 includes, 200/3000 uses, the next edit sent the moment publishing starts - and random operation lists on documents of 1..300 classes) where a missing answer counts only with all-threads-blocked evidence. The client announces the capabilities a current editor announces (dynamic registration, workspace/*/refresh, work-done progress) and answers every server-to-client request at once, behind what it has already written. While a case runs the process's standard output is held, as the server binary holds it for its transport (a worker that prints blocks for ever), and the documents carry one statement of every kind the indexer walks; a standstill counts when every worker sleeps unscheduled and the main loop waits for input at every sample for more than three seconds.",
    note="liveness = completes under every enumerated schedule of these bounded scenarios at hook granularity; preemption-bounded, not all interleavings; OS pre-emption inside lock implementations is not controlled; timeouts without blocked-thread evidence are inconclusive",
    technique="schedule enumeration (stateless DFS, preemption-bounded) with a controlled scheduler + randomized stress"),
  "C09": dict(cat="exploration", design="§5 C09",
@@ -79,7 +79,7 @@ CHECKS = {
    note="buffer = disk in this check (C12 covers the difference); idle = all spawned tasks ended + barrier request",
    technique="stateful property-based testing against a from-scratch oracle"),
  "C12": dict(cat="exploration", design="§5 C12",
-   text="Exhaustive enumeration of all sessions of up to 4 (thorough 5) open/change/close/save events and workspace-leaving events (an unrelated third document becomes root; the root drops its include), each with the included document on disk, never saved, and including the root back (include cycle through every edited document), and - up to 3 (thorough 4) events - in a workspace directory reached through a symbolic link, in a directory whose name the editor percent-escapes differently from the server's URL library (`+`, `[`, `]`, blank; diagnostics keyed by the decoded URI), with the included document in a directory of its own below INCLUDE_DIR (a library file that is opened and edited), and while another program rewrites both files on disk after every analysed step (buffer variant 0 then being the text on disk: a document opened unmodified), over a root and an included document whose disk and buffer texts differ observably, compared after every step with a reference session model (disk overlaid by open buffers, root = last touched).",
+   text="Exhaustive enumeration of all sessions of up to 4 (thorough 5) open/change/close/save events and workspace-leaving events (an unrelated third document becomes root; the root drops its include), each with the included document on disk, never saved, and including the root back (include cycle through every edited document), and - up to 3 (thorough 4) events - in a workspace directory reached through a symbolic link, in a directory whose name the editor percent-escapes differently from the server's URL library (`+`, `[`, `]`, blank; diagnostics keyed by the decoded URI), with the included document in a directory of its own below INCLUDE_DIR (a library file that is opened and edited), and while another program rewrites both files on disk after every analysed step (buffer variant 0 then being the text on disk: a document opened unmodified), over a root and an included document whose disk and buffer texts differ observably, compared after every step with a reference session model (disk overlaid by open buffers, root = last touched). Family emptied-buffers: every sequence over open/change/close events in which the editor's text of a document is the empty string while its file is not.",
    note="a close triggers no analysis; its effect (disk text is the truth again) is checked at the next analysed step",
    technique="exhaustive small-scope enumeration of sessions against a reference model"),
  "C04": dict(cat="exploration", design="§5 C04",
